@@ -23,6 +23,8 @@ def S(name, run, quick=None, thorough=None, shards=(1, 16), race=False, tiers=("
 
 STAGES = {
     "C17": [S("grid", "^TestC17$", shards=(4, 16))],
+    "C06": [S("codes", "^TestC06$", shards=(8, 16)),
+            S("mixed", "^TestC06Mixed$", quick=3000, thorough=20000, shards=(2, 16))],
 }
 
 LEVELS = {
